@@ -25,3 +25,5 @@ mod c12_flex;
 mod c12_hist;
 #[cfg(kani)]
 mod c15_extra;
+#[cfg(kani)]
+mod c10_io;
